@@ -24,7 +24,7 @@ def run(S):
     KL = 3 if S.tier == 'quick' else 4
     KF = 3 if S.tier == 'quick' else 5
     f2 = flows.explore_flow(S, KF, want=('C06',))
-    f2 += lists.explore(S, KL, want=('C06',))
+    f2 += lists.explore(S, KL, want=('C06',), focus_last=S.tier == 'quick')
     lists.report(S, 'C06', f2)
     f4 = mathargs.explore(S, 3 if S.tier == 'quick' else 5, want=('C06',))
     mathargs.report(S, 'C06', f4)
